@@ -102,7 +102,7 @@ def worker(case: Dict[str, Any]) -> CaseResult:
                     op_name, var_names, sorted(pmap), pmap), sorted(feats), replay_case, mech="c03:variable-parameters"))
                 continue
             count("operations_with_variables")
-            required = [vd.variable.name.value for vd in opnode.variable_definitions if vd.type.kind == "non_null_type"]
+            required = [vd.variable.name.value for vd in opnode.variable_definitions if vd.type.kind == "non_null_type" and vd.default_value is None]
             for si in range(n_scripts):
                 vg = ValueGen(schema_ref, rng, custom_scalar_values=({"Upload": lambda n: "upload-tok#%d" % n} if uploads else None))
                 tree = vg.variables(opnode, minimal=(si == 0))
